@@ -12,9 +12,12 @@ SCHEMA = """
 interface Node { id: ID! }
 enum Color { RED GREEN BLUE }
 enum Size { S M L }
+enum COLOR { CYAN }
+enum SIZE { XL }
+enum size { xs }
 scalar Money
 type User implements Node { id: ID! name: String color: Color size: Size friends: [User!] balanceAmount: Money creditLimit: Money }
-type Bot implements Node { id: ID! model: String size: Size }
+type Bot implements Node { id: ID! model: String size: Size upper: COLOR big: SIZE small: size }
 union Actor = User | Bot
 input Filter { color: Color sizes: [Size!] nested: Filter minBalance: Money maxBalance: Money }
 type Query { node(id: ID!): Node actors(f: Filter): [Actor!] me: User }
